@@ -77,6 +77,8 @@ impl Beh {
 struct Cfg {
     /// per client exchange: (behaviour requested from the device, use the second session)
     exchanges: Vec<(Beh, bool)>,
+    /// the last exchange's opening message does not ask for an acknowledgement
+    unreliable_last: bool,
 }
 
 #[derive(Default, Debug)]
@@ -164,10 +166,14 @@ const NODE_X: u64 = 0x0000_0000_0000_C003;
 const PASSCODE: u32 = 20202021;
 
 async fn one_exchange(ma: &'static Matter<'static>, seed: u64, second: bool, tag: u8, beh: Beh) -> String {
+    one_exchange_rel(ma, seed, second, tag, beh, true).await
+}
+
+async fn one_exchange_rel(ma: &'static Matter<'static>, seed: u64, second: bool, tag: u8, beh: Beh, reliable: bool) -> String {
     let c = nodes::crypto(SeededRng::new(seed));
     let r: Result<String, Error> = async {
         let mut ex = if second { Exchange::initiate_pase(ma, &c, addr_of(1), PASSCODE).await? } else { Exchange::initiate(ma, &c, NonZeroU8::new(1).unwrap(), NODE_B).await? };
-        ex.send(MessageMeta::new(PROTO, 1, true), &[tag, beh.code(), 0xAA]).await?;
+        ex.send(MessageMeta::new(PROTO, 1, reliable), &[tag, beh.code(), 0xAA]).await?;
         let out = {
             let mut recv = core::pin::pin!(ex.recv());
             let mut timeout = core::pin::pin!(Timer::after(Duration::from_secs(10)));
@@ -226,6 +232,8 @@ fn build(cfg: &Cfg, start_delay_ms: u64, pool3: bool) -> World {
         let (send, recv) = (net.end(0), net.end(0));
         let obs2 = obs.clone();
         let exs = cfg.exchanges.clone();
+        let unreliable_last = cfg.unreliable_last;
+        let n_exchanges = cfg.exchanges.len();
         exec.spawn("A", async move {
             let c = nodes::crypto(SeededRng::new(104));
             let client = async {
@@ -237,7 +245,8 @@ fn build(cfg: &Cfg, start_delay_ms: u64, pool3: bool) -> World {
                     let obs3 = obs2.clone();
                     async move {
                         if let Some((beh, second)) = get(k) {
-                            let r = one_exchange(ma, 300 + k as u64, second, k as u8, beh).await;
+                            let reliable = !(unreliable_last && k + 1 == n_exchanges);
+                            let r = one_exchange_rel(ma, 300 + k as u64, second, k as u8, beh, reliable).await;
                             obs3.borrow_mut().client[k] = Some(r);
                         }
                     }
@@ -456,25 +465,30 @@ fn cfgs(tier: Tier) -> Vec<Cfg> {
     // every pair of behaviours on one session, and across two sessions; plus triples that exceed the pool
     for a in behs {
         for b in behs {
-            v.push(Cfg { exchanges: vec![(a, false), (b, false)] });
+            v.push(Cfg { exchanges: vec![(a, false), (b, false)], unreliable_last: false });
             if tier == Tier::Thorough || a == Beh::Prompt || b == Beh::Never {
-                v.push(Cfg { exchanges: vec![(a, false), (b, true)] });
+                v.push(Cfg { exchanges: vec![(a, false), (b, true)], unreliable_last: false });
             }
         }
     }
     for a in [Beh::Never, Beh::Late, Beh::Prompt] {
         for b in [Beh::Never, Beh::DropAfterRecv] {
-            v.push(Cfg { exchanges: vec![(a, false), (b, false), (Beh::Prompt, false)] });
+            v.push(Cfg { exchanges: vec![(a, false), (b, false), (Beh::Prompt, false)], unreliable_last: false });
             if tier == Tier::Thorough {
-                v.push(Cfg { exchanges: vec![(a, false), (b, true), (Beh::Prompt, false), (Beh::Prompt, true)] });
+                v.push(Cfg { exchanges: vec![(a, false), (b, true), (Beh::Prompt, false), (Beh::Prompt, true)], unreliable_last: false });
             }
         }
+    }
+    // both handlers of the pool busy for long, and a third exchange whose opening message asks for no
+    // acknowledgement: nobody accepts it within the accept deadline and nothing is owed to the peer
+    for (b, third_second) in [(Beh::Never, false), (Beh::Never, true), (Beh::Late, false)] {
+        v.push(Cfg { exchanges: vec![(Beh::Never, false), (b, false), (Beh::Prompt, third_second)], unreliable_last: true });
     }
     v
 }
 
 fn cfg_json(c: &Cfg) -> Value {
-    json!({"exchanges": c.exchanges.iter().map(|(b, s)| json!([b.code(), s])).collect::<Vec<_>>()})
+    json!({"exchanges": c.exchanges.iter().map(|(b, s)| json!([b.code(), s])).collect::<Vec<_>>(), "unreliable_last": c.unreliable_last})
 }
 
 // ------------------------------------------------------------------------------------------
@@ -566,7 +580,7 @@ fn forged_tag(i: usize, t: Target) -> u8 {
 }
 
 fn run_forged(list: &[Forged]) -> Result<(Vec<(String, String)>, String), String> {
-    let cfg = Cfg { exchanges: vec![(Beh::Hold, false)] };
+    let cfg = Cfg { exchanges: vec![(Beh::Hold, false)], unreliable_last: false };
     let mut w = build(&cfg, 1000, true);
     w.exec.run()?;
     let mut v: Vec<(String, String)> = Vec::new();
@@ -823,7 +837,7 @@ fn replay(ctx: &Ctx, path: &std::path::Path) -> i32 {
         }
         return common::finish(ctx, report, Evidence::new("model_checking"));
     }
-    let cfg = Cfg { exchanges: r["cfg"]["exchanges"].as_array().unwrap().iter().map(|e| (Beh::from(e[0].as_u64().unwrap() as u8), e[1].as_bool().unwrap())).collect() };
+    let cfg = Cfg { exchanges: r["cfg"]["exchanges"].as_array().unwrap().iter().map(|e| (Beh::from(e[0].as_u64().unwrap() as u8), e[1].as_bool().unwrap())).collect(), unreliable_last: r["cfg"]["unreliable_last"].as_bool().unwrap_or(false) };
     let prefix: Vec<usize> = r["choices"].as_array().unwrap().iter().map(|c| c.as_u64().unwrap() as usize).collect();
     match run_one(&cfg, &prefix) {
         Err(e) => {
